@@ -37,6 +37,8 @@ def nodeWire : Wire := ⟨.providerRegistry, .bidderRegistry, .preconf, .provide
 structure World where
   staked  : Bool
   allowed : Bool
+  wellFormed : Bool := true      -- the request handed to the bidder node's API satisfies the format rules
+  engineAccepts : Bool := true   -- the provider's decision engine accepts what it is shown
   deriving Repr, DecidableEq
 
 /-- a stake read answered only by the provider registry (elsewhere: revert → fail closed) -/
@@ -55,11 +57,13 @@ structure Outcome where
 provider's engine accepts everything it is shown -/
 def scenario (w : Wire) (wd : World) : Outcome :=
   let admitted := stakeCheck w wd                 -- the bidder node admits the provider
-  let funded := admitted && allowanceCheck w wd   -- the provider node accepts the bid
+  let sent := admitted && wd.wellFormed           -- the bidder node's API forwards the bid to it
+  let funded := sent && allowanceCheck w wd       -- the provider node hands the bid to its engine
+  let committed := funded && wd.engineAccepts
   { stakeReadsAt := [w.handshakeStake],
-    allowReadsAt := if admitted then [w.bidAllowance] else [],
-    commitTxsAt := if funded then [w.commitStore] else [],
-    commitments := if funded then 1 else 0,
+    allowReadsAt := if sent then [w.bidAllowance] else [],
+    commitTxsAt := if committed then [w.commitStore] else [],
+    commitments := if committed then 1 else 0,
     engineSaw := if funded then 1 else 0 }
 
 /-- what became of a stake / prepay transaction -/
